@@ -121,8 +121,9 @@ Qed.
 
 Theorem render_link_src_eq P d l : render_link_src P d l = render_link P d l.
 Proof.
-  unfold render_link_src, render_link. cbv zeta. unfold cfg_off, no_attrs. cbn [orb andb].
-  destruct (p_all_external P); [reflexivity|]. cbv iota.
+  unfold render_link_src, render_link. cbv zeta. unfold no_attrs. cbn [andb].
+  change (orb (orb (p_commonmark_only P) (p_gfm_only P)) (p_all_external P)) with (plain_url_mode P).
+  destruct (plain_url_mode P); [reflexivity|]. cbv iota.
   change s_hash with [35]. destruct (startswith (l_dest l) [35]); [reflexivity|].
   destruct (match scheme_of (l_dest l) with Some s => mem_str s (p_url_schemes P) | None => false end); [reflexivity|].
   change s_inv with [105; 110; 118]. change s_path with [112; 97; 116; 104]. change s_project with [112; 114; 111; 106; 101; 99; 116].
@@ -259,7 +260,7 @@ From MV Require Import XRef.XRefProofs.
 
 Theorem path_spellings_all_src : forall (P : project) (d : docrec) (tp : list str) (sp : str),
   segs_ok (p_srcdir P) -> segs_ok (d_dir d) -> Forall name_ok tp -> spells (d_dir d) tp sp ->
-  p_all_external P = false ->
+  plain_url_mode P = false ->
   relfn2path (p_srcdir P) (d_dir d) sp = Inside tp
   /\ (forall dn frag ch,
         is_file P (Inside tp) = true -> path2doc (p_suffixes P) (Inside tp) = Some dn -> dn <> [] ->
@@ -348,4 +349,22 @@ Theorem missing_once_src :
      count_missing (o_warns (run_link_src std_objects other_domains intersphinx P d l)) = 0%nat).
 Proof.
   intros std other isx P d l Hn. rewrite run_link_src_eq, unresolved_src_iff. apply missing_once. exact Hn.
+Qed.
+
+Theorem src_refines_model :
+  (forall P d p, abs_path_src P d p = abs_path P d p)
+  /\ (forall P d l dest, handle_relative_docs_src P d l dest = handle_relative_docs P d l dest)
+  /\ (forall P d l, render_link_project_src P d l = render_link_project P d l)
+  /\ (forall P d l, render_link_path_src P d l = render_link_path P d l)
+  /\ (forall P d l, render_link_unknown_src P d l = render_link_unknown P d l)
+  /\ (forall P d l, render_link_src P d l = render_link P d l)
+  /\ (forall P from ex t, option_map (mkcand r_ref) (resolve_ref_nested_src P from ex t) = resolve_ref_nested P from ex t)
+  /\ (forall P from ex t, option_map (mkcand r_doc) (resolve_doc_nested_src P from ex t) = resolve_doc_nested P from ex t)
+  /\ (forall std other P from ex t, any_candidates_src std other P from ex t = any_candidates std other P from ex t)
+  /\ (forall P from ex dn tid, resolve_myst_ref_doc_src P from ex dn tid = resolve_myst_ref_doc P from ex dn tid).
+Proof.
+  exact (conj abs_path_src_eq (conj handle_relative_docs_src_eq (conj render_link_project_src_eq
+        (conj render_link_path_src_eq (conj render_link_unknown_src_eq (conj render_link_src_eq
+        (conj resolve_ref_nested_src_eq (conj resolve_doc_nested_src_eq (conj any_candidates_src_eq
+        resolve_myst_ref_doc_src_eq))))))))).
 Qed.
